@@ -1,9 +1,12 @@
 #!/bin/bash
-# tools/suite.sh <agent-out-dir> <m>  : full pinned suite with the mutation applied, in a scratch worktree; prints summary
+# tools/suite.sh <agent-out-dir> <m>  : full pinned suite with the mutation applied, in a scratch worktree; prints summary.
+# test_threaded.py::test_interrupt sends SIGINT to the main thread and intermittently kills an xdist worker on this
+# (loaded) machine, which can wedge the whole run; it is therefore run separately, serially, and reported next to the rest.
 OUT=$1; M=$2
 W=/tmp/wt/suite-$(basename $OUT)-$M-$$
 git -C /repo worktree add -q --detach $W $(git -C /repo rev-parse HEAD) || exit 2
-git -C $W apply $OUT/$M.diff || { echo "SUITE $(basename $OUT) $M APPLY-FAILED"; git -C /repo worktree remove --force $W; exit 0; }
-R=$(cd $W && PYTHONPATH=$W nice -n 5 /venv/bin/python -m pytest -q -p no:cacheprovider --timeout=900 --continue-on-collection-errors -n 8 2>&1 | tail -1)
+git -C $W apply $OUT/$M.diff || { echo "SUITE $(basename $OUT) $M APPLY-FAILED" | tee -a /tmp/wt/suite-results.txt; git -C /repo worktree remove --force $W; exit 0; }
+R=$(cd $W && PYTHONPATH=$W timeout 3000 /venv/bin/python -m pytest -q -p no:cacheprovider --timeout=900 --continue-on-collection-errors -n 8 --deselect "dask/tests/test_threaded.py::test_interrupt" 2>&1 | tail -1 | sed 's/\x1b\[[0-9;]*m//g')
+R2=$(cd $W && PYTHONPATH=$W timeout 300 /venv/bin/python -m pytest -q -p no:cacheprovider dask/tests/test_threaded.py -k test_interrupt 2>&1 | tail -1 | sed 's/\x1b\[[0-9;]*m//g')
 git -C /repo worktree remove --force $W
-echo "SUITE $(basename $OUT) $M $R" | tee -a /tmp/wt/suite-results.txt
+echo "SUITE $(basename $OUT) $M $R | test_interrupt: $R2" | tee -a /tmp/wt/suite-results.txt
